@@ -72,6 +72,7 @@ fn errkind(s: &str) -> io::ErrorKind {
         "PermissionDenied" => io::ErrorKind::PermissionDenied,
         "InvalidData" => io::ErrorKind::InvalidData,
         "UnexpectedEof" => io::ErrorKind::UnexpectedEof,
+        "Interrupted" => io::ErrorKind::Interrupted,
         _ => io::ErrorKind::Other,
     }
 }
